@@ -21,6 +21,12 @@ pub trait KotoIterator: Iterator<Item = KIteratorOutput> + KotoSend + KotoSync {
     fn next_back(&mut self) -> Option<KIteratorOutput> {
         None
     }
+
+    /// Verification hook H5 (guarded, add-only): stack sizes of a generator's VM, see H1
+    #[cfg(koto_verif)]
+    fn verif_stack_sizes(&self) -> Option<(usize, usize, usize, usize, usize)> {
+        None
+    }
 }
 
 /// The output type for iterators in Koto
@@ -142,6 +148,12 @@ impl KIterator {
         Ok(Self::new(crate::core_lib::iterator::generators::Once::new(
             value,
         )))
+    }
+
+    /// Verification hook H5 (guarded, add-only): `Some(sizes)` if this is a generator
+    #[cfg(koto_verif)]
+    pub fn verif_generator_stack_sizes(&self) -> Option<(usize, usize, usize, usize, usize)> {
+        self.0.borrow().verif_stack_sizes()
     }
 
     /// Makes a copy of the iterator
@@ -608,6 +620,11 @@ impl KotoIterator for GeneratorIterator {
     fn make_copy(&self) -> Result<KIterator> {
         let new_vm = crate::vm::clone_generator_vm(&self.vm)?;
         Ok(KIterator::with_vm(new_vm))
+    }
+
+    #[cfg(koto_verif)]
+    fn verif_stack_sizes(&self) -> Option<(usize, usize, usize, usize, usize)> {
+        Some(self.vm.verif_stack_sizes())
     }
 }
 
